@@ -41,6 +41,7 @@ type scenario struct {
 	// WrongViaCommit: the wrong-offset data, if the writer buffers it, is followed by Commit (so it
 	// travels in the committing request) instead of Close
 	WrongViaCommit bool `json:"wrong_via_commit"`
+	recommit       bool // after the clean commit: resume, write more, commit again under the old digest
 }
 
 func (s *scenario) class() string {
@@ -274,6 +275,37 @@ func runScenario(run *evid.Run, reg ociregistry.Interface, repo string, s *scena
 		bad("content-mismatch", fmt.Sprintf("committed blob has %d bytes (%s), the written bytes were %d (%s)", len(data), model.Digest(data), len(s.Content), trueDigest))
 	}
 	run.Count("clean_commits", 1)
+	// The session lives on after its commit in lenient registries. If it can be resumed and takes more
+	// data, a second Commit quoting the old digest names bytes that are no longer what the session
+	// holds: it must not succeed (a registry refusing the resume or the write is fine too).
+	if s.recommit {
+		id := w.ID()
+		off := int64(len(s.Content))
+		if s.NegMode && len(s.Content) != 1 {
+			off = -1
+		}
+		w2, rerr := reg.PushBlobChunkedResume(bg, repo, id, off, s.Hint)
+		log("PushBlobChunkedResume after commit", rerr)
+		if rerr != nil {
+			return
+		}
+		more := []byte("MORE-DATA-AFTER-COMMIT")
+		_, werr := w2.Write(append([]byte(nil), more...))
+		log("Write(22 bytes) after commit", werr)
+		if werr != nil {
+			return
+		}
+		d2, c2err := w2.Commit(ociregistry.Digest(trueDigest))
+		log("Commit(digest of the first commit) after more data", c2err)
+		run.Count("recommits_after_more_data", 1)
+		if c2err == nil {
+			bad("wrong-digest-committed/after-more-data", fmt.Sprintf("a session committed under %s took %d more bytes, and a second Commit quoting the same digest succeeded (descriptor %s/%d)", trueDigest, len(more), d2.Digest, d2.Size))
+			return
+		}
+		if data, gerr := readBlob(reg, repo, trueDigest); gerr != nil || !bytes.Equal(data, s.Content) {
+			bad("content-mismatch/after-refused-recommit", fmt.Sprintf("after the refused second commit the blob reads back as %d bytes (err %v)", len(data), gerr))
+		}
+	}
 	return
 }
 
@@ -573,6 +605,7 @@ func main() {
 		case 1:
 			s.Fault = 2
 		}
+		s.recommit = s.Fault == 0 && rng.IntN(3) == 0
 		w.exec(s)
 		if i < 3 {
 			run.Sample("sampled-scenario", s)
@@ -587,6 +620,7 @@ func main() {
 		transientFailure(run, i)
 	}
 	run.FloorCounter("transient_failures_retried", 30)
+	run.FloorCounter("recommits_after_more_data", 20)
 	run.FloorCounter("wrong_offset_resumes", 50)
 	run.FloorCounter("wrong_offset_data_sent_by_commit", 10)
 	run.FloorCounter("wrong_digest_commits", 50)
